@@ -93,3 +93,31 @@ func AllGo(maxBytes int) (names []string, srcs []string) {
 	})
 	return
 }
+
+// Exprs enumerates the XGo expression grammar closed to the given depth (simplest first).
+func Exprs(depth int) []string {
+	atoms := []string{"a", "1", `"s"`, "x.y", "f()", "a[i]", "[1, 2]", "3ms", `"${b}c"`, "${H}", "{1: 2}"}
+	if depth == 0 {
+		return atoms
+	}
+	sub := Exprs(depth - 1)
+	out := append([]string{}, atoms...)
+	for _, s := range sub {
+		out = append(out, "-"+s, "!"+s, "("+s+")", s+"!", s+"?", s+".f", s+"[0]", s+"[1:2]", "f("+s+")", "&"+s, "*"+s, "<-"+s, "["+s+" for v <- x]", "func() int { return "+s+" }()")
+	}
+	lim := sub
+	if len(lim) > 14 {
+		lim = lim[:14]
+	}
+	for _, a := range lim {
+		for _, b := range lim {
+			out = append(out, a+" + "+b, a+" * "+b, a+" == "+b, a+" -> "+b, a+"?:"+b, "f("+a+", "+b+")", a+"["+b+"]")
+		}
+	}
+	return out
+}
+
+// StmtsFor wraps an expression into the statement contexts of the grammar.
+func StmtsFor(e string) []string {
+	return []string{"x := " + e, "echo " + e, "return " + e, "if " + e + " {\n}", "for v <- " + e + " {\n}", "a <- " + e, "f " + e + ", 1", "x = " + e + "\ny++"}
+}
